@@ -72,7 +72,118 @@ func genC04Shapes() {
 	g.def("parsed_unchecked", "string", coqStr(p.parsedUnchecked), "what is parsed otherwise")
 	g.def("gzip_reads_from", "string", coqStr(p.gzipFrom), "the reader handed to gzip.NewReader in the signature pass")
 	g.def("signature_fill", "string", coqStr(p.sigFill), "the statement after IndexFromArchive that fills in the Signature field")
+
+	// ---- the multi-architecture wiring: who loads which indexes with which ignore argument ----
+	own, sib, sibRecv, over := c04ResolveWorldShape(findFunc("pkg/apk/apk/implementation.go", "APK", "ResolveWorld"))
+	g.def("resolve_own_ignore_arg", "string", coqStr(own), "ResolveWorld: ignore-signatures argument of the load of the context's own indexes ($a = the receiver)")
+	g.def("resolve_sibling_ignore_arg", "string", coqStr(sib), "ResolveWorld: ignore-signatures argument of the load of a sibling's indexes ($other = the ByArch entry)")
+	g.def("resolve_sibling_receiver", "string", coqStr(sibRecv), "whose GetRepositoryIndexes loads a sibling's indexes")
+	g.def("resolve_sibling_range", "string", coqStr(over), "what the sibling loop ranges over")
+	g.def("apk_index_options", "list string", coqStrList(c04ApkIndexOptions(findFunc("pkg/apk/apk/repo.go", "APK", "GetRepositoryIndexes"))),
+		"(*APK).GetRepositoryIndexes: the signature-related options handed to GetRepositoryIndexes ($a = the receiver, $ignore = the argument)")
 	g.write()
+}
+
+func c04RecvName(fd *ast.FuncDecl) string {
+	if fd == nil || fd.Recv == nil || len(fd.Recv.List) != 1 || len(fd.Recv.List[0].Names) != 1 {
+		return ""
+	}
+	return fd.Recv.List[0].Names[0].Name
+}
+
+// c04ResolveWorldShape: the second argument of <recv>.GetRepositoryIndexes(ctx, X) outside the ByArch loop, and of
+// <v>.GetRepositoryIndexes(ctx, Y) inside `for _, v := range <recv>.ByArch`
+func c04ResolveWorldShape(fd *ast.FuncDecl) (own, sib, sibRecv, over string) {
+	const unk = "<unrecognised>"
+	own, sib, sibRecv, over = unk, unk, unk, unk
+	recv := c04RecvName(fd)
+	if fd == nil || fd.Body == nil || recv == "" {
+		return
+	}
+	sub := map[string]string{recv: "$a"}
+	var loop *ast.RangeStmt
+	ast.Inspect(fd, func(n ast.Node) bool {
+		if rg, ok := n.(*ast.RangeStmt); ok && loop == nil && strings.HasSuffix(c04Canon(rg.X, sub), ".ByArch") {
+			loop = rg
+		}
+		return true
+	})
+	calls := func(root ast.Node, skip ast.Node) (out []*ast.CallExpr) {
+		ast.Inspect(root, func(n ast.Node) bool {
+			if n == skip {
+				return false
+			}
+			if ce, ok := n.(*ast.CallExpr); ok {
+				if se, ok := ce.Fun.(*ast.SelectorExpr); ok && se.Sel.Name == "GetRepositoryIndexes" && len(ce.Args) == 2 {
+					out = append(out, ce)
+				}
+			}
+			return true
+		})
+		return out
+	}
+	var skip ast.Node
+	if loop != nil {
+		skip = loop
+	}
+	if cs := calls(fd.Body, skip); len(cs) == 1 {
+		if c04Canon(cs[0].Fun.(*ast.SelectorExpr).X, sub) == "$a" {
+			own = c04Canon(cs[0].Args[1], sub)
+		}
+	} else if len(cs) > 1 {
+		own = unk + ": several loads outside the sibling loop"
+	}
+	if loop != nil {
+		over = c04Canon(loop.X, sub)
+		s2 := map[string]string{recv: "$a"}
+		if v, ok := loop.Value.(*ast.Ident); ok {
+			s2[v.Name] = "$other"
+		}
+		if k, ok := loop.Key.(*ast.Ident); ok && k.Name != "_" {
+			s2[k.Name] = "$otherArch"
+		}
+		if cs := calls(loop.Body, nil); len(cs) == 1 {
+			sibRecv = c04Canon(cs[0].Fun.(*ast.SelectorExpr).X, s2)
+			sib = c04Canon(cs[0].Args[1], s2)
+		} else if len(cs) > 1 {
+			sib = unk + ": several loads inside the sibling loop"
+		}
+	}
+	return
+}
+
+// c04ApkIndexOptions: in (*APK).GetRepositoryIndexes, the WithIgnoreSignatures / WithIgnoreSignatureForIndexes options that
+// reach the package-level GetRepositoryIndexes
+func c04ApkIndexOptions(fd *ast.FuncDecl) []string {
+	const unk = "<unrecognised>"
+	recv := c04RecvName(fd)
+	if fd == nil || fd.Body == nil || recv == "" {
+		return []string{unk}
+	}
+	ps := c04Params(fd)
+	if len(ps) != 2 {
+		return []string{unk}
+	}
+	sub := map[string]string{recv: "$a", ps[1]: "$ignore"}
+	var out []string
+	ast.Inspect(fd, func(n ast.Node) bool {
+		ce, ok := n.(*ast.CallExpr)
+		if !ok {
+			return true
+		}
+		if id, ok := ce.Fun.(*ast.Ident); ok && (id.Name == "WithIgnoreSignatures" || id.Name == "WithIgnoreSignatureForIndexes") {
+			t := c04Canon(ce, sub)
+			if ce.Ellipsis != token.NoPos {
+				t = strings.TrimSuffix(t, ")") + "...)"
+			}
+			out = append(out, t)
+		}
+		return true
+	})
+	if len(out) == 0 {
+		return []string{unk}
+	}
+	return out
 }
 
 func c04Params(fd *ast.FuncDecl) []string {
